@@ -272,6 +272,28 @@ Example c09_demo_concurrent_jobs :
   /\ job_consistent mm_fixed /\ length (ended_made mm_fixed) = 2%nat.
 Proof. exact (conj mm_start_ok mm_fixed_consistent). Qed.
 
+(* the two halves of the model agree: a call whose atomic steps run without interference (`solo_steps`, a special
+   interleaving: `c09_solo_is_interleaving`) ends in exactly the state of the sequential function — so the sequential
+   theorems above are about the same system as the concurrency theorems *)
+Theorem c09_solo_auto_is_auto : forall (K : consts) (c : call) (s : st),
+  c_sched c = false -> c_stride c <> 0 -> clamp (k_maxnew_lo K) (k_maxnew_hi K) (c_maxnew c) = c_maxnew c ->
+  exists resp, solo_steps K (s, AStart c)
+                 (fst (auto K (Some (c_stride c)) (Some (c_maxnew c)) None s), ADone resp).
+Proof. exact solo_auto_is_auto. Qed.
+Print Assumptions c09_solo_auto_is_auto.
+
+Theorem c09_solo_sched_is_sched : forall (K : consts) (c : call) (s : st),
+  c_sched c = true -> c_stride c <> 0 -> clamp (k_maxnew_lo K) (k_maxnew_hi K) (c_maxnew c) = c_maxnew c ->
+  exists resp, solo_steps K (s, AStart c)
+                 (fst (sched K (Some (c_stride c)) (Some (c_maxnew c)) (Some (c_block c)) (Some (c_exec c)) None s), ADone resp).
+Proof. exact solo_sched_is_sched. Qed.
+Print Assumptions c09_solo_sched_is_sched.
+
+Theorem c09_solo_is_interleaving : forall (K : consts) (x y : st * astate),
+  solo_steps K x y -> sys_steps K (fst x, [snd x]) (fst y, [snd y]).
+Proof. exact solo_is_sys. Qed.
+Print Assumptions c09_solo_is_interleaving.
+
 (* S20, the scheduler before the fix: it handed its own earlier plan to the job although job_spawned announced the
    plan computed at spawn time.  Witness (finest interleaving, `run_fine`): a schedule call plans cut 2, an auto call
    checkpoints cut 2 meanwhile, the schedule call's spawn_job announces cut 1, the job re-creates cut 2 and never
